@@ -7,7 +7,7 @@ NID = "Inst('saml2_tophat.saml:NameID')"
 ENTRY = 'Tuple(Union(Int, Str, NoneT), Dict(Str, Any))'
 declare_class(CA, fields={'_db': 'Dict(Str, Dict(Str, %s))' % ENTRY, '_sync': 'Any'})
 ghost('code_of', ['Val'], 'Val')        # the storage key of a NameID (ident.code); injective on normalised NameIDs (C18, L18)
-contract('saml2_tophat.ident:decode', pure=True, trusted=True, params=['txt'], returns=NID, ensures=['fresh(result)'],
+contract('saml2_tophat.ident:decode', trusted=True, params=['txt'], returns=NID, ensures=['fresh(result)'],
          note='ASSUMED here; the encoding itself is the subject of C18')
 
 macro('ENTRY_OF', ['c', 'nid', 'eid'], 'as_type(as_type(c._db[code_of(nid)], "Dict(Str, %s)")[eid], "%s")' % (ENTRY, ENTRY))
